@@ -1,0 +1,153 @@
+/*
+ * myth_verif.h --- verification seams
+ *
+ * every macro below expands to nothing unless MYTH_VERIF is defined.
+ * with -DMYTH_VERIF the library must be linked with a runtime that
+ * supplies the mythv_* functions (a model-checking scheduler, an
+ * explicit-state memory-model machine, or a recorder).
+ *
+ *  POINT(id, lv)   : called right before an access to shared word lv
+ *                    that another worker may race with
+ *  SPIN(id, lv)    : called inside a busy-wait loop that cannot exit
+ *                    until another worker changes lv
+ *  YSPIN(id, lv)   : same, for wait loops that yield to other threads
+ *                    of the same worker in each iteration
+ *  IDLE(id, rank)  : the scheduler of worker rank found nothing to run
+ *  CHOOSE(v, id, n): v = environment's answer in [0,n) (random numbers)
+ *  CLOCK(ts)       : ts = environment's clock; evaluates to 1 if it
+ *                    supplied a value
+ *  FENCE(kind)     : a memory fence is being executed
+ *  ALLOC/FREE      : thread descriptor / stack handed out / released
+ *  WORKER/LEAVE    : a worker OS thread starts / leaves the scheduler
+ */
+#pragma once
+#ifndef MYTH_VERIF_H_
+#define MYTH_VERIF_H_
+
+#ifdef MYTH_VERIF
+
+#include <stddef.h>
+#include <time.h>
+
+#ifdef __cplusplus
+extern "C" {
+#endif
+
+enum {
+  /* point ids; keep stable, the harness prints them */
+  mythv_p_cas = 1,
+  mythv_p_spin_unlock,
+  mythv_p_spin_lock_wait,
+  mythv_p_q_push_top,
+  mythv_p_q_push_slot,
+  mythv_p_q_push_pub,
+  mythv_p_q_pop_check,
+  mythv_p_q_pop_dec,
+  mythv_p_q_pop_base,
+  mythv_p_q_pop_slot,
+  mythv_p_q_take_check,
+  mythv_p_q_take_inc,
+  mythv_p_q_take_top,
+  mythv_p_q_take_slot,
+  mythv_p_q_take_rollback,
+  mythv_p_q_pass,
+  mythv_p_q_put,
+  mythv_p_q_peek,
+  mythv_p_status_store,
+  mythv_p_status_load,
+  mythv_p_status_wait,
+  mythv_p_detach_check,
+  mythv_p_sched_idle,
+  mythv_p_exit_flag,
+  mythv_p_mutex_load,
+  mythv_p_mutex_cas,
+  mythv_p_wake_wait,
+  mythv_p_barrier_load,
+  mythv_p_barrier_cas,
+  mythv_p_barrier_reset,
+  mythv_p_jc_load,
+  mythv_p_jc_cas,
+  mythv_p_once_load,
+  mythv_p_once_cas,
+  mythv_p_once_store,
+  mythv_p_once_wait,
+  mythv_p_uncond_pub,
+  mythv_p_uncond_load,
+  mythv_p_uncond_wait,
+  mythv_p_uncond_clear,
+  mythv_p_sstack_load,
+  mythv_p_sstack_cas,
+  mythv_p_key_load,
+  mythv_p_key_cas,
+  mythv_p_key_mark,
+  mythv_p_random,
+  mythv_p_clock,
+  mythv_p_migrate_home,
+  mythv_p_mutex_magic,
+  mythv_p_felock_status,
+  mythv_p_user = 100
+};
+
+enum { mythv_k_desc = 0, mythv_k_stack = 1 };
+enum { mythv_f_read = 1, mythv_f_write = 2, mythv_f_full = 3 };
+
+void mythv_point(int id, const volatile void * addr, size_t sz);
+void mythv_spin(int id, const volatile void * addr, size_t sz);
+void mythv_yspin(int id, const volatile void * addr, size_t sz);
+void mythv_idle(int id, int rank);
+int  mythv_choose(int id, int n);
+int  mythv_clock(struct timespec * ts);
+void mythv_fence(int kind, int drains_store_buffer);
+void mythv_alloc(int kind, void * p, size_t sz, int rank);
+void mythv_free(int kind, void * p, size_t sz, int rank);
+void mythv_worker(int rank);
+void mythv_leave(int rank);
+
+#ifdef __cplusplus
+}
+#endif
+
+#ifdef MYTH_VERIF_NO_POINTS
+/* for runtimes that see every access anyway (compiler-inserted callbacks) */
+#define MYTH_VERIF_POINT(id, lv)  ((void)0)
+#else
+#define MYTH_VERIF_POINT(id, lv)  mythv_point((id), &(lv), sizeof(lv))
+/* every atomic read-modify-write of the library is a scheduling point:
+   a function-like macro is not expanded again inside its own expansion */
+#define __sync_bool_compare_and_swap(p, o, n) \
+  (mythv_point(mythv_p_cas, (p), sizeof(*(p))), \
+   __sync_bool_compare_and_swap((p), (o), (n)))
+#define __sync_fetch_and_sub(p, v) \
+  (mythv_point(mythv_p_cas, (p), sizeof(*(p))), __sync_fetch_and_sub((p), (v)))
+#define __sync_fetch_and_add(p, v) \
+  (mythv_point(mythv_p_cas, (p), sizeof(*(p))), __sync_fetch_and_add((p), (v)))
+#endif
+#define MYTH_VERIF_SPIN(id, lv)   mythv_spin((id), &(lv), sizeof(lv))
+#define MYTH_VERIF_YSPIN(id, lv)  mythv_yspin((id), &(lv), sizeof(lv))
+#define MYTH_VERIF_IDLE(id, rank) mythv_idle((id), (rank))
+#define MYTH_VERIF_CHOOSE(v, id, n) \
+  do { int c_ = mythv_choose((id), (n)); if (c_ >= 0) (v) = c_; } while (0)
+#define MYTH_VERIF_CLOCK(ts)      mythv_clock(ts)
+#define MYTH_VERIF_FENCE(k, d)    mythv_fence((k), (d))
+#define MYTH_VERIF_ALLOC(k, p, sz, rank) mythv_alloc((k), (p), (sz), (rank))
+#define MYTH_VERIF_FREE(k, p, sz, rank)  mythv_free((k), (p), (sz), (rank))
+#define MYTH_VERIF_WORKER(rank)   mythv_worker(rank)
+#define MYTH_VERIF_LEAVE(rank)    mythv_leave(rank)
+
+#else  /* MYTH_VERIF */
+
+#define MYTH_VERIF_POINT(id, lv)  ((void)0)
+#define MYTH_VERIF_SPIN(id, lv)   ((void)0)
+#define MYTH_VERIF_YSPIN(id, lv)  ((void)0)
+#define MYTH_VERIF_IDLE(id, rank) ((void)0)
+#define MYTH_VERIF_CHOOSE(v, id, n) ((void)0)
+#define MYTH_VERIF_CLOCK(ts)      0
+#define MYTH_VERIF_FENCE(k, d)    ((void)0)
+#define MYTH_VERIF_ALLOC(k, p, sz, rank) ((void)0)
+#define MYTH_VERIF_FREE(k, p, sz, rank)  ((void)0)
+#define MYTH_VERIF_WORKER(rank)   ((void)0)
+#define MYTH_VERIF_LEAVE(rank)    ((void)0)
+
+#endif	/* MYTH_VERIF */
+
+#endif /* MYTH_VERIF_H_ */
